@@ -529,7 +529,7 @@ class Executor:
     def named_const(self, agg, ty):
         """a named constant (`const tcp::PROTOCOL_VERSION`) whose value the dump does not show: an uninterpreted symbol
         (same name -> same symbol): over-approximation"""
-        return self.ctx.declare("const:" + agg.const_text, ty)
+        return self.ctx.declare("const:" + agg.const_text + ":" + ty.replace("usize", "u64"), ty)
 
     def binop(self, path, op, a, b):
         if isinstance(a, Leaf) and isinstance(b, Agg) and getattr(b, "const_text", None):
@@ -595,6 +595,9 @@ class Executor:
 
     def cast(self, v, src_kind, dst_ty):
         dst_ty = norm_ty(dst_ty)
+        if isinstance(v, Agg) and getattr(v, "const_text", None) and dst_ty in INT_W:
+            # cast of a named constant: `usize` and `u64` readings of one constant are the same symbol
+            return self.named_const(v, dst_ty)
         if not isinstance(v, Leaf):
             raise Unsupported(f"cast of {v!r}")
         if v.ty == "bool" and dst_ty in INT_W:
